@@ -117,6 +117,10 @@ def _gen_script(rng, kind, faulty):
     f = rng.choice(["launch", "nonzero", "hang", "out", "tree", "nonzero_partial", "eval"])
     if f == "launch":
         s["launch"] = rng.choice(["enoent", "eacces", "eagain"])
+        if kind == "stublocal" and rng.random() < 0.4:
+            # the launch itself works, but a step of the subclass' run() after it raises: the run has ended as well
+            s["launch"] = "ok"
+            s["post_launch"] = "fail"
     elif f in ("nonzero", "nonzero_partial"):
         s["exit"] = rng.choice([1, 2, 127, 139, -11])
         s["stderr"] = rng.choice(["", "FATAL: something\nwent wrong\n", "Killed\n"])
@@ -729,7 +733,7 @@ class Sim:
                 rec.bin = ws["bin"]
                 if self.real:
                     rec.bin = self.real_bin(rec)
-                st, val = call(make_stub_local, rec.bin)
+                st, val = call(make_stub_local, rec.bin, rec.script)
             elif k == "stubpoll":
                 rec.bin = None
                 st, val = call(make_stub_poll, self, rec)
@@ -1029,8 +1033,15 @@ class Sim:
             expect_fail = {"enoent": FileNotFoundError, "eacces": PermissionError, "eagain": OSError}[script["launch"]]
             if rec.exec_dir_path is not None:
                 self.res.stats["probe:launch-failed-with-execdir"] += 1
+        elif script.get("post_launch") == "fail" and rec.kind == "stublocal":
+            expect_fail = RuntimeError
+            self.res.stats["fault:run-fails-after-launch"] += 1
         ctrl = self.ctrl_for(rec) if self.real else None
         st, val = call(fn)
+        if self.real and st == "exc" and script.get("post_launch") == "fail" and getattr(rec.app, "_process", None) is not None:
+            rec.procs.append(RealProc(rec.app._process, rec, self.world, ctrl))
+            for p in rec.procs:
+                p.wait_dead()
         if self.real and st == "ok":
             popen = rec.app.get_process()
             rec.procs.append(RealProc(popen, rec, self.world, ctrl))
@@ -1454,14 +1465,21 @@ def app_class(kind):
     return {"clustalo": ClustalOmegaApp, "muscle3": MuscleApp, "muscle5": Muscle5App, "mafft": MafftApp}[kind]
 
 
-def make_stub_local(bin_path):
+def make_stub_local(bin_path, script=None):
     from biotite.application.localapp import LocalApp
 
+    script = script or {}
+
     class StubLocalApp(LocalApp):
-        """Adds nothing: drives LocalApp alone."""
+        """Adds nothing but an optional failing step after the launch (run() is the documented override hook)."""
 
         def __init__(self, bin_path):
             super().__init__(bin_path)
+
+        def run(self):
+            super().run()
+            if script.get("post_launch") == "fail":
+                raise RuntimeError("a step of run() after the launch failed")
 
     return StubLocalApp(bin_path)
 
@@ -1566,7 +1584,7 @@ def simplify(spec):
         yield s
     for wi, w in enumerate(cfg["wrappers"]):
         sc = w["script"]
-        for key, simple in (("launch", "ok"), ("exit", 0), ("out", "ok"), ("tree", "ok"), ("stderr", ""), ("eval", "ok")):
+        for key, simple in (("launch", "ok"), ("exit", 0), ("out", "ok"), ("tree", "ok"), ("stderr", ""), ("eval", "ok"), ("post_launch", None)):
             if key in sc and sc[key] != simple:
                 s = copy.deepcopy(spec)
                 s["cfg"]["wrappers"][wi]["script"][key] = simple
